@@ -78,7 +78,15 @@ where
     let nonce: [u8; 24] = arr(n);
     let pre = dryoc::precalc::PrecalcSecretKey::precalculate(&pk, &sk);
     let bx: DryocBox<E, M, D> = if precalc {
-        DryocBox::precalc_encrypt(m, &nonce, &pre).unwrap()
+        // the same shared key through the key-pair object (KeyPair::precalculate) is another spelling of this form
+        let kp = dryoc::keypair::StackKeyPair::from_secret_key(sk.into());
+        let pre2 = kp.precalculate(&dryoc::types::StackByteArray::<32>::from(pk));
+        let b1: DryocBox<E, M, D> = DryocBox::precalc_encrypt(m, &nonce, &pre).unwrap();
+        let b2: DryocBox<E, M, D> = DryocBox::precalc_encrypt(m, &nonce, &pre2).unwrap();
+        if b1.to_vec() != b2.to_vec() {
+            return "mismatch precalc_encrypt(PrecalcSecretKey::precalculate) != precalc_encrypt(KeyPair::precalculate)".into();
+        }
+        b1
     } else {
         DryocBox::encrypt(m, &nonce, &pk, &sk).unwrap()
     };
@@ -198,6 +206,16 @@ pub fn dispatch(op: &str, a: &[&str], _b: &[Vec<u8>]) -> Option<Ans> {
             let nonce: [u8; 24] = arr(&b[1]);
             let bx = dryoc::dryocsecretbox::VecBox::encrypt_to_vecbox(&b[2], &nonce, &key);
             let v = bx.to_vec();
+            // into_vec on boxes whose payload Vec has spare capacity (as left by a decoder or a caller's with_capacity)
+            for extra in [0usize, 1, 15, 16, 17, 64] {
+                let (tag, data) = bx.clone().into_parts();
+                let mut d2: Vec<u8> = Vec::with_capacity(data.len() + extra);
+                d2.extend_from_slice(&data);
+                let b2 = dryoc::dryocsecretbox::VecBox::from_parts(tag, d2);
+                if b2.into_vec() != v {
+                    return Some((format!("mismatch into_vec(spare capacity {})/to_vec", extra), "n/a".into()));
+                }
+            }
             let w = bx.into_vec();
             if v != w { "mismatch into_vec/to_vec".to_string() } else { ok(&w) }
         }
